@@ -133,7 +133,9 @@ pub const TR_TAKE: u8 = 20; // a = fingerprint, b = depth
 pub const TR_PROP: u8 = 21; // a = property index, b = 0 skipped (already discovered) / 1 discovery inserted / 2 evaluated, no discovery
 pub const TR_EXPAND: u8 = 22; // a = fingerprint of the successor, b = 1 if newly generated
 pub const TR_RECORD: u8 = 23; // a = property index (terminal state, eventually-property discovery)
-pub const TR_STOP: u8 = 24; // a = 1 finish_when, 2 target_state_count, 3 market shut down, 4 pop returned nothing
+pub const TR_STOP: u8 = 24; // a = 1 finish_when, 2 target_state_count, 3 market shut down, 4 pop returned nothing, 5 control channel closed (on-demand)
+pub const TR_BLOCK: u8 = 25; // on-demand: a block starts, a = number of jobs drained from the front of the deque
+pub const TR_BLOCK_END: u8 = 26; // on-demand: the block returns early (everything discovered), a = number of drained jobs dropped unevaluated
 
 static TRACE_ON: std::sync::atomic::AtomicBool = std::sync::atomic::AtomicBool::new(false);
 static TRACE: std::sync::Mutex<Vec<TraceEntry>> = std::sync::Mutex::new(Vec::new());
